@@ -9,6 +9,7 @@ def run(ctx):
             "ClientHello alone with HelloRetryRequest and the client, whose write key is still client_early_traffic, seals one more record before its Finished flight: the application's closure alert before / after ClientHello2 is sent, an alert answering "
             "a ServerHello with another cipher suite, a plaintext Finished out of order, a corrupted protected record; or the handshake completes and data flows; (b) the server rejects the early data without HelloRetryRequest (ticket age off by 60 s) "
             "or (c) accepts it, and the client closes / gets a corrupted protected record right after ServerHello, or the server closes after its flight, or the handshake completes. Clause added: the write sequence number of a write-secure endpoint never goes back while the write key stays the same. "
+            "Very long streams (quick: 2-3 AEAD scenarios, thorough: every AEAD suite x TLS version plus one CBC suite per version): 66000 one-octet records per direction on one connection, so that the sequence number carries out of its low 16 bits under one key (the (key, nonce) index is hashed). " 
             "distinct_nontrivial = distinct scenarios executed; the evidence stats give the numbers of seals / CBC records / keys observed.")
     return vflib.std_run(ctx, st, "exploration", rule,
         ["observation is at the crypto-library boundary (link-time --wrap); the TLS 1.3 ticket code's internal psAesReadyGCM call is observed through psAesReadyGCMRandomIV",
